@@ -446,6 +446,15 @@ def _(i, st, a, c): return f_min(a[0], a[1])
 def _(i, st, a, c): return f_max(a[0], a[1])
 
 
+@model(r'core::f64::<impl f64>::copysign', r'std::f64::<impl f64>::copysign')
+def _(i, st, a, c):
+    x, y = a
+    ax_ = f_abs(x)
+    if not is_z3(y):
+        return ax_ if y >= 0 else neg(ax_)
+    return z3.If(to_z3(y) >= 0, to_z3(ax_), -to_z3(ax_))
+
+
 @model(r'core::f64::<impl f64>::recip')
 def _(i, st, a, c): return div_real(st, Fraction(1), a[0])
 
